@@ -270,8 +270,9 @@ def align(cb, ca, K=14, W=8):
             if found:
                 break
         if not found:
-            for w in (W, 4):
-                for tot in range(2, 2 * K + 1):
+            # smallest replacement first; a short look-ahead is accepted for small replacements
+            for tot in range(2, 2 * K + 1):
+                for w in ((W, 4) if tot <= 6 else (W,)):
                     for kd in range(1, tot):
                         ki = tot - kd
                         if kd <= K and ki <= K and i + kd <= n and j + ki <= m and _match(cb, i + kd, ca, j + ki, w):
